@@ -132,9 +132,15 @@ def run_prune_order(inst):
     return runner.explore(f"prune-order n={n} W={W} thr={int(with_thr)}", runner.lra_engine(5000), scenario, claims, confirm=confirm, witness=witness)
 
 
+VEE = {"A": ["X"], "B": ["X"], "X": ["Y"], "Y": []}      # two predecessors reach the same non-emitting node
+
+
 def run_instance(inst):
     if inst[0] == 'prune_order':
         return run_prune_order(inst)
+    if inst[0] == 'ne_step_rel':
+        from harness import nestep
+        return nestep.run(inst)
     gabs.install_values_all_stub()
     try:
         return gabs.run(inst, claims_fn, witness_fn)
@@ -151,14 +157,17 @@ def main(tier):
                              mb.LatticeColumn.prune, mb.BaseMatching.update, mb.BaseMatching.__hash__, mb.BaseMatcher.match)
     budget = 60 if tier == 'quick' else 900
     from symx.common import run_instances
-    kres = run_instances(run_instance, [('prune_order', n, W, t) for n in ((3,) if tier == 'quick' else (3, 4)) for W in range(1, n) for t in (False, True)])
+    sb = 60 if tier == 'quick' else 600
+    steps = [('ne_step_rel', 'order', 'vee', VEE, 'simple_n', sb), ('ne_step_rel', 'order', 'vee', VEE, 'simple', sb), ('ne_step_rel', 'order', 'vee', VEE, 'dist', sb),
+             ('ne_step_rel', 'order', 'tri', NAMED['tri'], 'simple_n', sb), ('ne_step_rel', 'order', 'fork', NAMED['fork'], 'simple', sb)]
+    kres = run_instances(run_instance, steps + [('prune_order', n, W, t) for n in ((3,) if tier == 'quick' else (3, 4)) for W in range(1, n) for t in (False, True)])
     res = list(kres) + gabs.run_all(rep, run_instance, instances(tier), budget, 16 * (100 if tier == 'quick' else 900))
     rep.bounds = dict(graphs="oneway3, oneway4, line2, fork, tri, star" if tier == 'quick' else "all digraphs <=3 nodes, fork, oneway4, star",
                       T="2..3", orders="arbitrary permutation of: values_all() iteration (stands for every PYTHONHASHSEED), edge/node listing of the spatial query, neighbour listing per node",
                       config="max_dist symbolic (early stop reachable) or width 1 (tie extension reachable); non-emitting on/off")
     rep.outside = ["rounding", "graphs/traces beyond the bound", "dictionary insertion order of the lattice layers beyond what the listing orders induce"]
     rep.assumptions = ["LatticeColumn.values_all replaced by an order-parametrised stub (hash order is a subset of all orders)", "AbsMap contract"]
-    gabs.collect(rep, res, PID, need_tags=('nontrivial_permutation', 'complete', 'early_stop', 'prune_order_nontrivial', 'prune_postponed'))
+    gabs.collect(rep, res, PID, need_tags=('nontrivial_permutation', 'complete', 'early_stop', 'prune_order_nontrivial', 'prune_postponed', 'ne_step_two_nonemitting_layers'))
     return rep.finish("relational symbolic execution of the real match() under two iteration/listing orders (engine-chosen permutations) in one "
                       "symbolic path over abstract geometry; equality of index and probability decided by z3")
 
@@ -167,6 +176,9 @@ def replay_file(path):
     import json
     import_repo()
     d = json.load(open(path))
+    if d.get('kind') == 'ne_step_rel':
+        from harness import nestep
+        return nestep.replay(d)
     if d.get('kind') == 'prune_order':
         from leuvenmapmatching.matcher.base import LatticeColumn, BaseMatching
         from leuvenmapmatching.util.segment import Segment
